@@ -16,6 +16,7 @@ package engine
 
 import (
 	"errors"
+	"fmt"
 
 	"codeberg.org/TauCeti/mangle-go/ast"
 	"codeberg.org/TauCeti/mangle-go/factstore"
@@ -31,7 +32,14 @@ type QueryContext struct {
 	PredToDecl         map[ast.PredicateSym]*ast.Decl
 	Store              factstore.ReadOnlyFactStore
 	ExternalPredicates map[ast.PredicateSym]ExternalPredicateCallback
+	// depth counts the calls of deferred predicates that are being evaluated.
+	depth int
 }
+
+// maxTopDownDepth bounds the nesting of calls of deferred predicates. There
+// is no tabling: a deferred predicate that calls itself with the same
+// arguments would otherwise recurse until the stack is exhausted.
+const maxTopDownDepth = 10000
 
 // EvalQuery evaluates a query top-down, according to mode and union-find-subst.
 // The mode must consist only of ArgModeInput (+) and ArgModeOutput (-).
@@ -149,6 +157,10 @@ func (q QueryContext) EvalPremise(premise ast.Term, subst unionfind.UnionFind) (
 		}
 		decl := q.PredToDecl[p.Predicate]
 		if decl != nil && decl.DeferredPredicate() {
+			if q.depth >= maxTopDownDepth {
+				return nil, fmt.Errorf("evaluating deferred predicate %v: more than %d nested calls", p.Predicate, maxTopDownDepth)
+			}
+			q.depth++
 			err := q.EvalQuery(p, decl.Modes()[0], subst, func(fact ast.Atom) error {
 				newsubst, err := unionfind.UnifyTermsExtend(p.Args, fact.Args, subst)
 				if err != nil {
